@@ -1186,6 +1186,29 @@ def source_shape(g, LIB, RNG):
             bad.append('[version-grammar] a local item named `%s` shadows the winnow item the contracts are about' % n)
     if len(re.findall(r'^use winnow\b', lib, re.M)) != 6 or re.search(r'\bas\s+\w+\s*[,}]', ' '.join(re.findall(r'^use winnow[^;]*;', lib, re.M))):
         bad.append('[version-grammar] the `use winnow::..` lines of src/lib.rs changed (an extra import or a renaming `as`): a combinator name may mean something else')
+    # ... and the same for src/range.rs (its grammar functions are under contract too)
+    RW = {'ascii': ('space0', 'space1'), 'combinator': ('alt', 'delimited', 'eof', 'opt', 'peek', 'preceded', 'repeat_till', 'separated', 'terminated'), 'token': ('any', 'literal'), '': ('PResult', 'Parser')}
+    for sub, names in RW.items():
+        m = re.search(r'^use winnow::%s\{([^}]*)\};' % ((sub + '::') if sub else ''), rng, re.M | re.S)
+        got = set(x.strip() for x in m.group(1).split(',') if x.strip()) if m else set()
+        for n in names:
+            if n not in got:
+                bad.append('[range] `%s` is not imported from winnow::%s in src/range.rs: the combinator contracts (A15) are about winnow\'s items' % (n, sub))
+    m = re.search(r'^use crate::\{([^}]*)\};', rng, re.M | re.S)
+    crate_names = set(x.strip() for x in m.group(1).split(',') if x.strip()) if m else set()
+    for n in ('extras', 'number'):
+        if n not in crate_names:
+            bad.append('[range] `%s` is not imported from the crate root in src/range.rs' % n)
+    for n in [x for v in RW.values() for x in v] + ['ErrMode', 'extras', 'number', 'version', 'identifier', 'build', 'pre_release', 'version_core']:
+        if re.search(r'^(?:pub(?:\([^)]*\))?\s+)?(?:fn|struct|enum|trait|type|mod|macro_rules!)\s+%s\b' % n, rng, re.M):
+            bad.append('[range] a local item named `%s` in src/range.rs shadows the item the contracts are about' % n)
+    if re.search(r'\bas\s+\w+\s*[,}]', ' '.join(re.findall(r'^use (?:winnow|crate)[^;]*;', rng, re.M | re.S))):
+        bad.append('[range] a renaming `use .. as ..` in src/range.rs: a name may mean something else')
+    for n in K.GRAMMAR_ORDER:
+        src_code = rng if K.GRAMMAR[n].get('src') == 'rng' else lib
+        other = lib if src_code is rng else rng
+        if n != 'parser' and re.search(r'^\s*(?:pub(?:\([^)]*\))?\s+)?fn\s+%s\b' % n, other, re.M):
+            bad.append('a second function named `%s` in the other source file: which one a caller means is not what the contracts assume' % n)
     if not re.search(r'^pub const MAX_SAFE_INTEGER: u64 = 900_719_925_474_099;', lib, re.M):
         bad.append('[version-grammar] MAX_SAFE_INTEGER is not 900_719_925_474_099')
     if not re.search(r'^pub const MAX_LENGTH: usize = 256;', lib, re.M):
